@@ -22,6 +22,7 @@ DECLINED = ["'smallest unused rank' (loop arithmetic over the sorted list)", "re
 ASSUMPTIONS = ["pthread mutex/cond semantics"]
 RULES_DOC = dict(common.SHARED_DOC)
 RULES_DOC["X4"] = common.X4_DOC
+RULES_DOC["R7"] = "a scheduler is marked used = ABTI_SCHED_MAIN before it is installed as a stream's main scheduler (every store of a scheduler into ABTI_xstream::p_main_sched is preceded on its path by that store on the same scheduler): a running main scheduler cannot be given to a second stream or freed"
 RULES_DOC.update({
     "R1": "stream list mutations, rank stores, num_xstreams updates and list scans hold xstream_list_lock",
     "R2": "duplicate scan and insertion in one critical section; duplicate arm: release, return FALSE, list untouched",
@@ -413,6 +414,39 @@ def rule_R6(P, rep):
     rep.need(n >= 8, "only %d num_pools-bounded array accesses found" % n)
 
 
+def rule_R7(P, rep):
+    from abtverif import canon as _canon
+    MAIN = P.enum_consts.get("ABTI_SCHED_MAIN")
+    rep.need(MAIN is not None, "enumerator ABTI_SCHED_MAIN not found")
+    n = 0
+    for F in sorted(P.functions.values(), key=lambda f: (f.file, f.line)):
+        installs = [(i, lh, rh) for _b, i, lh, rh in F.stores()
+                    if rh is not None and F.field_of(lh) == ("ABTI_xstream", "p_main_sched") and F.nodes[F.strip(rh)].get("cv") != 0]
+        if not installs:
+            continue
+        sel = seq.Sel(fields={"ABTI_xstream::p_main_sched", "ABTI_sched::used"}, canon=True, locks=False)
+        for toks, kind, rv, rtxt in seq.sequences(F, sel, max_len=60):
+            for j, t in enumerate(toks):
+                if t[0] != "st" or t[1] != "ABTI_xstream::p_main_sched":
+                    continue
+                nd = F.nodes[t[-1]]
+                if F.nodes[F.strip(nd["rh"])].get("cv") == 0:
+                    continue                       # cleared, not installed
+                who = _canon.rooted(F, nd["rh"])
+                marked = False
+                for u in toks[:j]:
+                    if u[0] == "st" and u[1] == "ABTI_sched::used" and u[3] == MAIN:
+                        tgt = F.nodes[u[-1]]["lh"]
+                        base = F.nodes[F.strip(tgt)]["b"]
+                        if _canon.rooted(F, base) == who:
+                            marked = True
+                n += 1
+                rep.ob("R7", "%s installs %s as main scheduler only after marking it used = MAIN" % (F.name, who), marked,
+                       "no `%s->used = ABTI_SCHED_MAIN` on the path before the store into p_main_sched" % who,
+                       loc=F.loc(t[-1]), site="%s/install/%s" % (F.name, who))
+    rep.need(n >= 4, "only %d installations of a main scheduler found" % n)
+
+
 def run(P, rep, tier):
     if tier == "thorough":
         common.rule_X4(P, rep)
@@ -421,3 +455,4 @@ def run(P, rep, tier):
     rule_R4(P, rep)
     rule_R5(P, rep)
     rule_R6(P, rep)
+    rule_R7(P, rep)
